@@ -322,8 +322,8 @@ Section Stores.
         for item in self.items:
             if event.filter(item): self.items.remove(item); event.succeed(item); break
         return True
-     list.remove(item) removes the first element EQUAL to item; an element equal to a matching item
-     matches as well, so this is the position found by the loop. *)
+     (repaired, fix: 937b0a6:  for i, item in enumerate(self.items): if event.filter(item): del self.items[i]; ...)
+     the matched element itself is removed. *)
   Fixpoint take_first (f : A -> bool) (l : list A) : option (A * list A) :=
     match l with
     | [] => None
@@ -343,6 +343,28 @@ Section Stores.
 
   Definition FilterStore (cap : option Q) : kind :=
     mkkind (list A) A (A -> bool) A (fun _ => true) (fun _ => true) (s_do_put cap) f_do_get.
+
+  (* FilterStore._do_get as found (before fix: 937b0a6):
+        for item in self.items:
+            if event.filter(item): self.items.remove(item); event.succeed(item); break
+     list.remove(item) removes the first element that compares EQUAL to item (Python ==, here [veq]),
+     which need not be the matched element.  Only used by the refutation theorem. *)
+  Variable veq : A -> A -> bool.
+
+  Fixpoint remove_eq (x : A) (l : list A) : list A :=
+    match l with
+    | [] => []
+    | y :: t => if veq x y then t else y :: remove_eq x t
+    end.
+
+  Definition f_do_get_old (items : list A) (f : A -> bool) : dores (list A) A :=
+    match find f items with
+    | Some x => mkres (remove_eq x items) (Some x) true
+    | None => mkres items None true
+    end.
+
+  Definition FilterStore_unfixed (cap : option Q) : kind :=
+    mkkind (list A) A (A -> bool) A (fun _ => true) (fun _ => true) (s_do_put cap) f_do_get_old.
 End Stores.
 
 Arguments take_first {A}.
